@@ -5,7 +5,7 @@
    numbers, opaque objects, exception instances, unknown runtime types) and may raise. *)
 From Coq Require Import ZArith List String Bool.
 From TV Require Import Py.Prelude Model.Schema Model.ImplInput Model.ImplExec Proofs.ExecConform
-  Proofs.ExecErrors.
+  Proofs.ExecErrors Proofs.BuiltinLeaves Proofs.ExecJson.
 Import ListNotations.
 Open Scope string_scope.
 Open Scope list_scope.
@@ -47,6 +47,27 @@ Proof. apply execute_operation_never_raises. Qed.
 
 End C03.
 
+(* "the response is JSON-serialisable": the data of every response is a JSON value (null, booleans, integers, finite
+   floats, text, lists and string-keyed objects of such) as soon as every scalar's serialiser produces JSON values ... *)
+Theorem C03_data_is_json sch doc vs U cfg op root r :
+  (forall n ops v r0, find_type sch n = Some DScalar -> scalars sch n = Some ops -> s_output ops v = Ok r0 -> is_undef r0 = false ->
+                      json_val r0 = true) ->
+  execute_operation sch doc vs U cfg op root = OVal r -> json_val (r_data r) = true.
+Proof. exact (data_is_json sch doc vs U cfg op root r). Qed.
+
+(* ... which the five built-in scalars, as regenerated from /repo, do *)
+Theorem C03_builtin_schema_data_is_json O sch doc vs U cfg op root r :
+  (forall n, scalars sch n = builtin_scalars O n) ->
+  execute_operation sch doc vs U cfg op root = OVal r -> json_val (r_data r) = true.
+Proof. exact (builtin_schema_data_is_json O sch doc vs U cfg op root r). Qed.
+
+(* leaves of the built-in scalars at conforming positions: Int an integer within signed 32 bits, Float a finite number,
+   String / ID a string, Boolean a boolean (or null where the position is nullable) *)
+Theorem C03_builtin_leaves_have_their_wire_type O sch doc vs n nodes v :
+  (forall m, scalars sch m = builtin_scalars O m) -> find_type sch n = Some DScalar ->
+  conf_ty sch doc vs (TNamed n) nodes v -> v = PNone \/ builtin_leaf n v = true.
+Proof. exact (builtin_leaf_conforms O sch doc vs n nodes v). Qed.
+
 (* Leaves of the built-in scalars: with the translated coerce_output functions a conforming
    Int leaf is an integer within 32 bits, a Float leaf a finite double, String/ID text, Boolean a
    boolean (theorems C10_*_output_wire about Gen/Scalars_gen.v). *)
@@ -54,3 +75,6 @@ End C03.
 Print Assumptions C03_field_value_conforms.
 Print Assumptions C03_data_conforms.
 Print Assumptions C03_never_raises.
+Print Assumptions C03_data_is_json.
+Print Assumptions C03_builtin_schema_data_is_json.
+Print Assumptions C03_builtin_leaves_have_their_wire_type.
